@@ -50,5 +50,8 @@ instance : KOps Float where
   durFromSecs := durFromSecsFloat
   pi := Float.ofBits 0x400921FB54442D18
   sqrt2_32 := Float.ofBits 0x3FF6A09E60000000
+  sin32 a := (Float32.sin a.toFloat32).toFloat
+  cos32 a := (Float32.cos a.toFloat32).toFloat
+  isFinite := Float.isFinite
 
 end K
